@@ -91,6 +91,10 @@ Col(name, t) == [ks |-> S_ks1, table |-> S_t1, name |-> name, type |-> t]
 RowsInt == [meta |-> MkMeta(<<TInt>>, TRUE, FALSE, FALSE), rows |-> <<<<CInt(7)>>, <<CInt(-1)>>>>]
 RowsTwo == [meta |-> MkMeta(<<TText, TyList(TInt)>>, FALSE, FALSE, FALSE), rows |-> <<<<CText(S_hello), CListInt(PV, <<1, 2>>)>>>>]
 Prepared(nbind) == [id |-> <<9, 9>>, pk |-> <<>>, req |-> MkMeta([i \in 1 .. nbind |-> TInt], TRUE, FALSE, FALSE), res |-> MkMeta(<<TInt>>, TRUE, FALSE, FALSE)]
+\* one bind marker announced, its specification skipped (the no_metadata flag is defined for every metadata block)
+PreparedNoMeta == [Prepared(1) EXCEPT !.req = MkMeta(<<TInt>>, FALSE, FALSE, TRUE)]
+\* two bind markers, the second a tuple<int, text>
+PreparedTupleBind == [Prepared(2) EXCEPT !.req = MkMeta(<<TInt, TyTuple(<<TInt, TText>>)>>, TRUE, FALSE, FALSE)]
 SchemaTable == [change |-> S_CREATED, target |-> "TABLE", ks |-> S_ks1, name |-> S_tbl, args |-> <<>>]
 Ev(change) == [change |-> change, addr |-> <<10, 0, 0, 1>>, port |-> 9042]
 Ev2(change) == [change |-> change, addr |-> <<10, 0, 0, 9>>, port |-> 9042]
@@ -117,6 +121,8 @@ WellFormedVariants == <<
   Variant("RESULT_KEYSPACE", "RESULT_KEYSPACE", Mk("RESULT_KEYSPACE", [ks |-> S_ks1])),
   Variant("RESULT_PREPARED", "RESULT_PREPARED", Mk("RESULT_PREPARED", Prepared(1))),
   Variant("RESULT_PREPARED_2BIND", "RESULT_PREPARED", Mk("RESULT_PREPARED", Prepared(2))),
+  Variant("RESULT_PREPARED_BIND_NOMETA", "RESULT_PREPARED", Mk("RESULT_PREPARED", PreparedNoMeta)),
+  Variant("RESULT_PREPARED_TUPLE_BIND", "RESULT_PREPARED", Mk("RESULT_PREPARED", PreparedTupleBind)),
   Variant("RESULT_SCHEMA", "RESULT_SCHEMA", Mk("RESULT_SCHEMA", SchemaTable)),
   Variant("EVENT_TOPOLOGY_NEW", "EVENT_TOPOLOGY", Mk("EVENT_TOPOLOGY", Ev2(S_NEW_NODE))),
   Variant("EVENT_TOPOLOGY_REMOVED", "EVENT_TOPOLOGY", Mk("EVENT_TOPOLOGY", Ev(S_REMOVED_NODE))),
